@@ -92,7 +92,7 @@ impl World {
             }
             DOp::CompactBtree => {
                 let mut r = Ok(());
-                for (bit, fields) in [(IX_NAME, &["name"][..]), (IX_AGE, &["age"][..]), (IX_TAGS, &["tags"][..])] {
+                for (bit, fields) in [(IX_NAME, &["name"][..]), (IX_AGE, &["age"][..]), (IX_TAGS, &["tags"][..]), (IX_CODES, &["codes"][..])] {
                     if self.knobs.indexes & bit != 0 {
                         r = c.compact_btree_index(fields).await;
                         if r.is_err() {
@@ -334,6 +334,7 @@ impl<'a> CrashCheck<'a> {
             age: 77,
             score: Some(77),
             tags: vec!["red".into()],
+            codes: vec!["sentinel-code".into()],
             body: b.world.vocab[0].clone(),
             embedding: vec_of(&[1, 1, 1, 1]),
         };
